@@ -110,9 +110,12 @@ Lemma toy_spend_accepted ripemd160 sha1 hash160 hash256 c w r a :
 Proof.
   destruct (multisig_cmds toy NoLock toy_k3 2) as [cs|] eqn:Ecs; [|vm_compute in Ecs; discriminate].
   destruct toy_finalize as [Hfin _].
+  assert (Hform : sigs_defined_ht toy_sigs).
+  { unfold sigs_defined_ht, toy_sigs. repeat constructor; intros H; vm_compute in H; try discriminate H;
+      vm_compute; reflexivity. }
   destruct (finalize_spend_iff toy toy_sha toy_sighash (the_tap_sigops toy toy_sha toy_sighash)
               (the_tap_sigops_ok toy toy_sha toy_sighash) ripemd160 sha1 hash160 hash256 c w
-              toy_k3 2 cs toy_pts [1] [192] toy_sigs _ r a ltac:(cbn; lia) ltac:(lia) Ecs toy_points Hfin)
+              toy_k3 2 cs toy_pts [1] [192] toy_sigs _ r a ltac:(cbn; lia) ltac:(lia) Ecs toy_points Hfin Hform)
     as (slots & _ & _ & Hrev & _ & _ & Hiff).
   assert (Hs : slots = [[]; toy_sig 3 toy_msg0; toy_sig 10 toy_msg1 ++ [1]]).
   { rewrite <- Hrev. reflexivity. }
